@@ -1,6 +1,7 @@
 package main
 
 import (
+	"go/token"
 	"go/types"
 	"sort"
 	"strings"
@@ -121,6 +122,23 @@ func runC05(c *Ctx) {
 				if s, ok := ConstString(*op); ok && s == "vgi_rpc.error_kind" {
 					found = true
 					ok := u.HasGuardContaining(in, "ErrorKind(", `!= ""`)
+					if !ok {
+						// the kind may be held in a local first: the guard is `v != ""` with v fed by ErrorKind()
+						for _, g := range GuardsAt(in.Block()) {
+							b, isB := g.Cond.(*ssa.BinOp)
+							if !isB || !g.Truth || b.Op != token.NEQ {
+								continue
+							}
+							if s, isS := ConstString(b.Y); !isS || s != "" {
+								continue
+							}
+							for _, kc := range u.Calls(wf, HasSuffix(".ErrorKind")) {
+								if call, isCall := kc.Instr.(*ssa.Call); isCall && feeds(call, b.X) {
+									ok = true
+								}
+							}
+						}
+					}
 					r.Check(ok, "R-KIND", "writeErrorBatch|error_kind", u.Pos(in.Pos()), "error_kind emitted only when non-empty", "error_kind key written without the ErrorKind() != \"\" guard")
 				}
 			}
